@@ -3,6 +3,7 @@
 // followed by " ALIAS" if two live layers share an address.  ASan/LSan give the free-exactly-once oracle.
 //   mk v cls tag | clone v w | assign v w | move v w | massign v w | setinner v w | setinnerref v w
 //   release w v  | div v w   | del v      | tag v depth val
+//   subclone v w depth | subcopy v w depth     (copy of an inner layer; outside the model)
 //   pkwrap p v | pkown p v | pkcopy p q | pkmove p q | pkrel v p | pkdiv p w
 // An op whose precondition fails is skipped (the state is printed unchanged), exactly as the model does.
 #include "hcommon.h"
@@ -157,6 +158,12 @@ static void run(const Script& s) {
         else if (op == "setinnerref") { if (a < NV && b < NV && vars[a] && vars[b]) vars[a]->inner_pdu(*vars[b]); }
         else if (op == "release") { if (a < NV && b < NV && !vars[a] && vars[b]) vars[a] = vars[b]->release_inner_pdu(); }
         else if (op == "div") { if (a < NV && b < NV && vars[a] && vars[b]) { *vars[a] /= *vars[b]; } }
+        else if (op == "subclone" || op == "subcopy") {
+            // a copy taken from an INNER layer (clone() / the copy constructor of its class): a fresh root with that layer's chain
+            // (not an operation of the Coq model: scripts with it are judged by the Python reference only)
+            PDU* src = (a < NV && b < NV && !vars[a] && vars[b]) ? at_depth(vars[b], c) : 0;
+            if (src) vars[a] = op == "subclone" ? src->clone() : do_copyctor(src);
+        }
         else if (op == "del") { if (a < NV && vars[a]) { delete vars[a]; vars[a] = 0; } }
         else if (op == "tag") { if (a < NV && vars[a]) { PDU* p = at_depth(vars[a], b); if (p) set_tag(p, (uint16_t)c); } }
         else if (op == "pkwrap") { if (a < NP && b < NV && !pk[a].pdu() && vars[b]) pk[a] = Packet(*vars[b]); }
